@@ -74,7 +74,7 @@ impl Property for C09 {
         "proptest: minimum delay in {0,1,10,3600,86400,2^63,u64::MAX}, deployment timestamp in {0,1,1.7e9}, history of <=12 (quick) / <=20 (thorough) steps: Advance (0, small, to last_success+delay-1/+0/+1, by delay-1/+0/+1) and Rotate (bypass?, operator authorised?, candidate valid / invalid / duplicate) with the proof always from the newest set; the harness owns the forward-moving ledger clock. Oracle: clock model last = time of the last successful rotation (deployment counts); non-bypass succeeds iff now-last >= delay and the candidate is acceptable; bypass needs operator authorisation and ignores the delay; success restarts the clock, failure leaves it (snapshot equality + later behaviour). non-trivial = delay > 0 and a non-bypass attempt lands within +-1s of the boundary, or a bypass success is followed by a non-bypass attempt"
     }
     fn cases(&self, tier: Tier) -> u64 {
-        tier.pick(4000, 60000)
+        tier.pick(20000, 300000)
     }
     fn strategy(&self, tier: Tier) -> BoxedStrategy<Case> {
         let n = tier.pick(12usize, 20usize);
